@@ -262,7 +262,8 @@ def _get_shell():
 
 def _value_ns():
     import datetime
+    import pathlib
     from collections import OrderedDict
     from pathlib import PurePosixPath
 
-    return {"datetime": datetime, "OrderedDict": OrderedDict, "PurePosixPath": PurePosixPath}
+    return {"datetime": datetime, "OrderedDict": OrderedDict, "PurePosixPath": PurePosixPath, "pathlib": pathlib}
